@@ -1,6 +1,6 @@
 (** C09 — mask recovery returns the commitment's exact mask, position by position. *)
 From Coq Require Import List Arith NArith Bool.
-From BP Require Import Base.Field Model.Verifier Model.VerifyTop Proofs.MaskP Proofs.VerifyTopP.
+From BP Require Import Base.Field Model.Verifier Model.VerifyTop Model.Prover Proofs.MaskP Proofs.VerifyTopP Proofs.CompleteP Proofs.MaskFullP.
 Import ListNotations.
 
 (** For a non-aggregated proof whose responses d1_k are the honest ones
@@ -34,3 +34,21 @@ Print Assumptions C09_no_mask_verify_only.
 Theorem C09_no_mask_without_seed : forall (K : Fld) ofN mode mb, mb_seeded K mb = false -> mask_of K ofN mode mb = None.
 Proof. exact mask_of_unseeded. Qed.
 Print Assumptions C09_no_mask_without_seed.
+
+(** THE PROPERTY, end to end on the model: for one commitment (any bit length, capacity, extension
+    degree T = |Gb|, promise, value, nonces, non-zero challenges), the verifier's recovery formula applied
+    to the responses the CODE-SHAPED PROVER emits, queried with the prover's own nonces (the seed-derived
+    ones), returns exactly the commitment's blinding vector — every component, in order. *)
+Theorem C09_prover_mask_recovered : forall (K : Fld), FldOk K -> forall (M : Mod K), ModOk K M -> forall (g : gens K M)
+  bits cap (v : N) (p : option N) (r : list K) (nn : nonces K) (ch : pchals K),
+  let T := length (g_Gb g) in
+  1 <= bits -> 1 <= cap ->
+  length (g_G g) = bits * cap -> length (g_Hv g) = bits * cap ->
+  1 * bits = 2 ^ length (pc_es ch) ->
+  pc_y ch <> f0 K -> pc_z ch <> f0 K -> pc_e ch <> f0 K -> Forall (fun e => e <> f0 K) (pc_es ch) ->
+  length r = T -> wf_nonces K T (length (pc_es ch)) nn ->
+  let pf := prove_core K M bits cap g [v] [p] [r] nn ch in
+  recover_mask K (nonce_fn K nn) bits 1 T (mkVproof K (pp_d1 pf) (pp_r1 pf) (pp_s1 pf))
+               (mkChals K (pc_y ch) (pc_z ch) (pc_es ch) (pc_e ch)) = r.
+Proof. exact prover_mask_recovered. Qed.
+Print Assumptions C09_prover_mask_recovered.
